@@ -729,13 +729,29 @@ def wrapped_method(F, e, at):
     return None, args
 
 
-def parse_args_list(F, e, at, loopvar):
-    """[name, dbl, j] -> dbl constant, after checking the name and index positions; else raises."""
+def parse_args_list(F, e, at, loop):
+    """[name, dbl, j] -> (dbl, name ok, index ok, list expr, shared); else raises.
+
+    shared: the list object is created outside the element loop (or mutated by item stores), so all
+    callbacks built in the loop hold the *same* list and see the arguments of the last iteration."""
+    loopvar = loop.target.id
+    shared = False
     if isinstance(e, ast.Name):
+        nm = e.id
         v, d = F.value_of(at, e.id)
         if v is None:
             raise AnalysisError(f'cannot resolve args list {e.id}')
         e, at = v, d
+        if loop not in astx.ancestors(d.ast):
+            shared = True
+        for st_ in astx.walk_stmts(loop.body):
+            for t in astx.assigned_targets(st_) if isinstance(st_, (ast.Assign, ast.AugAssign)) else []:
+                if isinstance(t, ast.Subscript) and isinstance(t.value, ast.Name) and t.value.id == nm:
+                    shared = True
+            if isinstance(st_, ast.Expr) and isinstance(st_.value, ast.Call) and \
+                    astx.callee_attr(st_.value) in ('append', 'extend', 'insert', 'pop', 'clear', '__setitem__') and \
+                    isinstance(astx.receiver(st_.value), ast.Name) and astx.receiver(st_.value).id == nm:
+                shared = True
     if not (isinstance(e, (ast.List, ast.Tuple)) and len(e.elts) == 3):
         raise AnalysisError(f'args is not a 3-element list: {astx.src(e)}')
     a, b, c = e.elts
@@ -743,7 +759,7 @@ def parse_args_list(F, e, at, loopvar):
         raise AnalysisError(f'dbl argument is not a boolean literal: {astx.src(e)}')
     ok_name = isinstance(a, ast.Name) and a.id == F.name_var
     ok_idx = isinstance(c, ast.Name) and c.id == loopvar
-    return b.value, ok_name, ok_idx, e
+    return b.value, ok_name, ok_idx, e, shared
 
 
 # --------------------------------------------------------------------------- callbacks
@@ -989,9 +1005,9 @@ def emitted(R, out=None):
             if 'jac' in flds:
                 jac, _ = wrapped_method(F, flds['jac'][0][1], F.at(flds['jac'][0][0]))
             as_, av = flds['args'][0]
-            dbl, okn, oki, argl = parse_args_list(F, av, F.at(as_), loop.target.id)
+            dbl, okn, oki, argl, shared = parse_args_list(F, av, F.at(as_), loop)
             ems.append(dict(style='old', var=var, stmt=st_, loop=loop, fun=fun, jac=jac, dbl=dbl,
-                            args_ok=(okn, oki), args=argl, types=flds['type'], has_jac='jac' in flds))
+                            args_ok=(okn, oki), args_shared=shared, args=argl, types=flds['type'], has_jac='jac' in flds))
         elif kind == 'NonlinearConstraint':
             call = st_.value
             if loop is R.cons_loop:
@@ -1003,13 +1019,14 @@ def emitted(R, out=None):
                 else (None, None)
             if a1 is None:
                 raise AnalysisError('NonlinearConstraint fun is not signature_extender(..., args)')
-            dbl, okn, oki, argl = parse_args_list(F, a1, at, loop.target.id)
+            dbl, okn, oki, argl, shared = parse_args_list(F, a1, at, loop)
             if a2 is not None:
-                dbl2, okn2, oki2, _ = parse_args_list(F, a2, at, loop.target.id)
+                dbl2, okn2, oki2, _, shared2 = parse_args_list(F, a2, at, loop)
+                shared = shared or shared2
                 if (dbl2, okn2, oki2) != (dbl, okn, oki):
                     raise AnalysisError('fun and jac of NonlinearConstraint get different args')
             ems.append(dict(style='new', var=var, stmt=st_, loop=loop, fun=fun, jac=jac, dbl=dbl,
-                            args_ok=(okn, oki), args=argl, call=call, has_jac=jac is not None))
+                            args_ok=(okn, oki), args_shared=shared, args=argl, call=call, has_jac=jac is not None))
         else:
             ems.append(dict(style='linear', var=var, stmt=st_, loop=loop, call=st_.value))
     return ems
@@ -1178,7 +1195,9 @@ def cover(repo, out):
         raise AnalysisError('no old-style constraint dictionaries found')
     for em in ems:
         okn, oki = em['args_ok']
-        if not okn or not oki:
+        if em['args_shared']:
+            out.bad(R.fn, em['args'], f"{em['var']}: the argument list is created outside the element loop / mutated in place, so every callback built in the loop holds the same list object and evaluates the element of the *last* iteration: all other elements are unconstrained", key=f"args-shared-{em['var']}")
+        elif not okn or not oki:
             out.bad(R.fn, em['args'], f"args {astx.src(em['args'])} do not pass (constraint name, dbl, element "
                     f"index of this iteration): the callback evaluates another element", key=f"args-{em['var']}")
         else:
@@ -1393,7 +1412,9 @@ def newbounds(repo, out):
         at = F.at(em['stmt'])
         if per_elem:
             okn, oki = em['args_ok']
-            if not okn or not oki or em['dbl'] is not False:
+            if em['args_shared']:
+                out.bad(R.fn, em['args'], "the argument list is created outside the element loop / mutated in place, so every callback built in the loop holds the same list object and evaluates the element of the *last* iteration: all other elements are unconstrained", key='args-shared-new')
+            elif not okn or not oki or em['dbl'] is not False:
                 out.bad(R.fn, em['args'], f"args {astx.src(em['args'])} must be [name, False, {F.idx_var}]",
                         key='args-new')
         for kw, want in (('lb', 'lower'), ('ub', 'upper')):
@@ -1988,6 +2009,139 @@ def scalebound(repo, out):
             out.unsure(fn, verdict[1].ast, verdict[2])
 
 
+_INV = {'+': '-', '-': '+', '*': '/', '/': '*'}
+_AOP = {ast.Add: '+', ast.Sub: '-', ast.Mult: '*', ast.Div: '/'}
+
+
+def _vec_ops(repo, qual):
+    """Per (adder given, scaler given): the sequence of in-place operations one loop iteration of an
+    Autoscaler._apply_vec_* method applies to vec[name]; plus the value _driver_scaling is left at."""
+    fn = repo.func(AUTO, qual)
+    F = Fn(fn)
+    g = F.g
+    vecp = F.params[1] if len(F.params) > 1 else None
+    loops = [x for x in astx.walk_stmts(fn.node.body) if isinstance(x, ast.For) and isinstance(x.target, ast.Name)
+             and isinstance(x.iter, ast.Name) and x.iter.id == vecp]
+    if len(loops) != 1:
+        raise AnalysisError(f'{fn.ident}: expected one `for name in {vecp}` loop')
+    loop = loops[0]
+    hdr = g.nodes_of(loop)[0]
+    lv = loop.target.id
+
+    def role_of(e, at):
+        """'scaler' / 'adder' for a local read from meta['total_scaler'] / ['total_adder']."""
+        if isinstance(e, ast.Name):
+            v, d = F.value_of(at, e.id)
+            if v is None:
+                return None
+            e = v
+        if isinstance(e, ast.Subscript):
+            k = astx.const_str(e.slice)
+            if k in ('total_scaler', 'scaler'):
+                return 'scaler'
+            if k in ('total_adder', 'adder'):
+                return 'adder'
+        return None
+
+    table = {}
+    for has_a in (False, True):
+        for has_s in (False, True):
+            given = {'adder': has_a, 'scaler': has_s}
+
+            def at_(a, node):
+                if isinstance(a, ast.Compare) and len(a.ops) == 1 and isinstance(a.ops[0], (ast.Is, ast.IsNot)) and \
+                        isinstance(a.comparators[0], ast.Constant) and a.comparators[0].value is None:
+                    r = role_of(a.left, node)
+                    if r is not None:
+                        return given[r] if isinstance(a.ops[0], ast.IsNot) else not given[r]
+                return None
+            seqs = set()
+            stack = [(m, ()) for m, lab in g.succ[hdr] if lab == 'true']
+            guard = 0
+            while stack:
+                n, seq = stack.pop()
+                guard += 1
+                if guard > 5000:
+                    raise AnalysisError(f'{fn.ident}: path explosion')
+                if n is hdr:
+                    seqs.add(seq)
+                    continue
+                if n is g.exit or (n.kind == 'stmt' and isinstance(n.ast, ast.Return)):
+                    seqs.add(seq + (('return', ''),))
+                    continue
+                if n.kind == 'stmt' and isinstance(n.ast, ast.AugAssign):
+                    t = n.ast.target
+                    if isinstance(t, ast.Subscript) and isinstance(t.value, ast.Name) and t.value.id == vecp and \
+                            isinstance(t.slice, ast.Name) and t.slice.id == lv:
+                        seq = seq + ((_AOP.get(type(n.ast.op), '?'), role_of(n.ast.value, n) or astx.src(n.ast.value)),)
+                elif n.kind == 'stmt' and isinstance(n.ast, ast.Assign) and any(
+                        isinstance(t, ast.Subscript) and isinstance(t.value, ast.Name) and t.value.id == vecp
+                        for t in astx.assigned_targets(n.ast)):
+                    seq = seq + (('=', astx.src(n.ast.value)),)
+                v = None
+                if n.kind == 'test' and isinstance(n.ast, ast.If):
+                    v = ev3(n.ast.test, lambda a, n=n: at_(a, n))
+                for m, lab in g.succ[n]:
+                    if lab == 'exc' or (v is not None and lab in ('true', 'false') and (lab == 'true') != v):
+                        continue
+                    stack.append((m, seq))
+            table[(has_a, has_s)] = seqs
+    flags = {n.ast.value.value for n in g.where(
+        lambda n: n.kind == 'stmt' and isinstance(n.ast, ast.Assign) and isinstance(n.ast.value, ast.Constant) and
+        any(isinstance(t, ast.Attribute) and t.attr == '_driver_scaling' for t in n.ast.targets))}
+    return fn, loop, table, flags
+
+
+@rule('C21.mirror', floor=8)
+def mirror(repo, out):
+    """Autoscaler._apply_vec_unscaling undoes _apply_vec_scaling for every (adder given, scaler given): inverse operations, reverse order; public apply_* delegate to the right one."""
+    sf, sloop, S, sflags = _vec_ops(repo, 'Autoscaler._apply_vec_scaling')
+    uf, uloop, U, uflags = _vec_ops(repo, 'Autoscaler._apply_vec_unscaling')
+    for key in sorted(S):
+        has_a, has_s = key
+        label = f"adder {'given' if has_a else 'None'}, scaler {'given' if has_s else 'None'}"
+        if len(S[key]) != 1 or len(U[key]) != 1:
+            out.unsure(uf, uloop, f'operation sequence is not unique for {label}: scaling {sorted(S[key])}, '
+                       f'unscaling {sorted(U[key])}')
+            continue
+        s_seq, u_seq = next(iter(S[key])), next(iter(U[key]))
+        want_s = tuple(x for x, g_ in ((('+', 'adder'), has_a), (('*', 'scaler'), has_s)) if g_)
+        if any(op in ('?', '=', 'return') or r not in ('adder', 'scaler') for op, r in s_seq + u_seq):
+            out.unsure(uf, uloop, f'unrecognised operation for {label}: scaling {s_seq}, unscaling {u_seq}')
+            continue
+        want_u = tuple((_INV[op], r) for op, r in reversed(s_seq))
+        fmt = lambda q: ' ; '.join(f'x {op}= {r}' for op, r in q) or 'nothing'   # noqa: E731
+        if s_seq != want_s:
+            out.bad(sf, sloop, f'for {label} scaling applies [{fmt(s_seq)}] instead of x_opt = (x + adder) * scaler '
+                    f'[{fmt(want_s)}]', key=f'scaling-{int(has_a)}{int(has_s)}')
+        elif u_seq != want_u:
+            out.bad(uf, uloop, f'for {label} _apply_vec_scaling applies [{fmt(s_seq)}] but _apply_vec_unscaling applies '
+                    f'[{fmt(u_seq)}] instead of [{fmt(want_u)}]: design variables written to the model differ from the '
+                    'design the optimizer chose (a reported-feasible optimizer point is evaluated/left at another '
+                    'model point)', key=f'unscaling-{int(has_a)}{int(has_s)}')
+        else:
+            out.ok(uf, uloop, f'{label}: scaling [{fmt(s_seq)}], unscaling [{fmt(u_seq)}]')
+    if sflags == {True} and uflags == {False}:
+        out.ok(uf, uf.node, 'scaling leaves _driver_scaling = True, unscaling leaves it False')
+    elif sflags and uflags and (True not in sflags or False not in uflags or sflags & uflags):
+        out.bad(uf, uf.node, f'_driver_scaling is left at {sorted(sflags)} by scaling and {sorted(uflags)} by unscaling: '
+                'the next call is skipped or applied twice', key='driver-scaling-flag')
+    else:
+        out.unsure(uf, uf.node, '_driver_scaling flag assignments not recognised')
+    want = {'apply_design_var_unscaling': '_apply_vec_unscaling', 'apply_design_var_scaling': '_apply_vec_scaling',
+            'apply_constraint_scaling': '_apply_vec_scaling'}
+    for meth, target in want.items():
+        f = repo.func(AUTO, f'Autoscaler.{meth}')
+        called = {astx.callee_attr(c) for c in astx.calls(f.node) if astx.path(astx.receiver(c)) == 'self'}
+        called &= {'_apply_vec_unscaling', '_apply_vec_scaling'}
+        if called == {target}:
+            out.ok(f, f.node, f'{meth} -> {target}')
+        elif called:
+            out.bad(f, f.node, f'{meth} calls {sorted(called)} instead of {target}', key=f'delegate-{meth}')
+        else:
+            out.unsure(f, f.node, f'{meth}: no call of self._apply_vec_*')
+
+
 # =============================================================================== self-test
 _S = SCIPY
 _OLD_ELEM = ("                        upper_j = upper[j] if isinstance(upper, np.ndarray) else upper\n"
@@ -2122,6 +2276,50 @@ selftest(
     Mutant('index-plain-increment-by-one', _S, _IDX_OLD, _idx_new('nl_i + 1'), 'C21.index'),
     Mutant('index-inverted-branches-counters-swapped', _S, _IDX_OLD,
            _idx_new().replace('= nl_i\n', '= lin_i\n', 1), 'C21.index'),
+    # ---- round-2 seeds and their clauses
+    Mutant('seed2-shared-args-list', _S,                                  # /tmp/seed2/C21/seed_out/1
+           "                        for j in range(size):\n                            # TODO add option for Hessian\n"
+           "                            # Double-sided constraints are accepted by the algorithm\n"
+           "                            args = [name, False, j]\n",
+           "                        args = [name, False, 0]\n                        for j in range(size):\n"
+           "                            args[2] = j\n", 'C21.newbounds'),
+    Mutant('newbounds-args-mutated-in-loop', _S, "                            args = [name, False, j]\n",
+           "                            args = [name, False, j]\n                            args[2] = size - 1\n", 'C21.newbounds'),
+    Mutant('cover-shared-args-old-style', _S, "                        con_dict['args'] = [name, False, j]\n",
+           "                        con_dict['args'] = shared_args\n", 'C21.cover',
+           also=[(_S, "                    for j in range(size):\n                        con_dict = {}\n",
+                  "                    shared_args = [name, False, 0]\n                    for j in range(size):\n"
+                  "                        shared_args[2] = j\n                        con_dict = {}\n")]),
+    Twin('twin-args-fresh-list-via-local', _S, "                        con_dict['args'] = [name, False, j]\n",
+         "                        first_args = [name, False, j]\n                        con_dict['args'] = first_args\n"),
+    Mutant('seed2-unscaling-continue-skips-adder', AUTO,                  # /tmp/seed2/C21/seed_out/2
+           "            if scaler is not None:\n                vec[name] /= scaler\n            if adder is not None:\n"
+           "                vec[name] -= adder\n",
+           "            if scaler is None:\n                continue\n            vec[name] /= scaler\n"
+           "            if adder is not None:\n                vec[name] -= adder\n", 'C21.mirror'),
+    Mutant('mirror-unscaling-order', AUTO,
+           "            if scaler is not None:\n                vec[name] /= scaler\n            if adder is not None:\n"
+           "                vec[name] -= adder\n",
+           "            if adder is not None:\n                vec[name] -= adder\n            if scaler is not None:\n"
+           "                vec[name] /= scaler\n", 'C21.mirror'),
+    Mutant('mirror-unscaling-adds', AUTO, "                vec[name] -= adder\n", "                vec[name] += adder\n", 'C21.mirror'),
+    Mutant('mirror-scaling-elif', AUTO, "            if scaler is not None:\n                vec[name] *= scaler\n",
+           "            elif scaler is not None:\n                vec[name] *= scaler\n", 'C21.mirror'),
+    Mutant('mirror-flag-not-cleared', AUTO, "        vec._driver_scaling = False\n", "        vec._driver_scaling = True\n", 'C21.mirror'),
+    Mutant('mirror-delegate-swapped', AUTO,
+           "            An OptimizerVector with voi_type='design_var'.\n        \"\"\"\n        self._apply_vec_unscaling(vec)\n",
+           "            An OptimizerVector with voi_type='design_var'.\n        \"\"\"\n        self._apply_vec_scaling(vec)\n",
+           'C21.mirror'),
+    Twin('twin-unscaling-continue-when-nothing', AUTO,
+         "            if scaler is not None:\n                vec[name] /= scaler\n            if adder is not None:\n"
+         "                vec[name] -= adder\n",
+         "            if scaler is None and adder is None:\n                continue\n            if not (scaler is None):\n"
+         "                vec[name] /= scaler\n            if adder is None:\n                continue\n"
+         "            vec[name] -= adder\n"),
+    Mutant('seed2-reraise-folded-into-except', _S,                       # /tmp/seed2/C21/seed_out/3
+           "            if self._exc_info is None:\n                raise\n\n        if self._exc_info is not None:\n"
+           "            self._reraise()\n",
+           "            if self._exc_info is None:\n                raise\n            self._reraise()\n", 'C21.status'),
     # ---- loopdef
     Mutant('loopdef-f6-prefix-shape', _S, _OLD_ELEM,
            "                        if isinstance(upper, np.ndarray):\n"
